@@ -324,5 +324,64 @@ def r05_6(ctx):
          if w else ctx.ok(construct, m.loc(), nontrivial=False))
 
 
+def r05_7(ctx):
+    """R05.7 (a) a replacing load forgets earlier picks: per-load marks (`_was_set`, `present_in_current_sdkconfig`) are
+    reset for symbols *and* choices before the lines are read, and whatever the file did not set is unset afterwards for
+    both; (b) in _finalize_choice the choice's type is settled before any member inherits it (a member that precedes the
+    first typed member would otherwise stay untyped, can be selected and never be y); (c) the recursive reset visits every
+    node below its start - a choice nested in another choice is below a Choice node."""
+    repo = ctx.repo
+    f = repo.func(f"{CORE}:Kconfig._load_config")
+    ctx.analysed(f.qual)
+    fl = Flow(f.node, resolver=Resolver(f.node)).run()
+    resets: Set[Tuple[str, str]] = set()
+    unsets: Set[str] = set()
+    for lp in ast.walk(f.node):
+        if not (isinstance(lp, ast.For) and isinstance(lp.target, ast.Name) and ast.unparse(lp.iter) in ("self.unique_defined_syms", "self.unique_choices")):
+            continue
+        coll = ast.unparse(lp.iter)
+        for n in ast.walk(lp):
+            if isinstance(n, ast.Assign) and isinstance(n.targets[0], ast.Attribute) and ast.unparse(n.targets[0].value) == lp.target.id \
+                    and isinstance(n.value, ast.Constant) and n.value.value is False:
+                gs = fl.guards_at(n) or set()
+                if n.targets[0].attr != "_was_set" or ("replace", True) in gs:
+                    resets.add((coll, n.targets[0].attr))
+            if isinstance(n, ast.Call) and ast.unparse(n.func) == f"{lp.target.id}.unset_value":
+                gs = fl.guards_at(n) or set()
+                if (f"{coll}[*]._was_set", False) in gs or (f"{lp.target.id}._was_set", False) in gs:
+                    unsets.add(coll)
+    for coll in ("self.unique_defined_syms", "self.unique_choices"):
+        for slot in ("_was_set", "present_in_current_sdkconfig"):
+            construct = f"Kconfig._load_config/{slot} is reset over {coll.split('.')[-1]} before the lines are read"
+            (ctx.ok(construct, f.loc()) if (coll, slot) in resets else
+             ctx.bad(construct, f"no loop over {coll} resets `{slot}`" + (" under `replace`" if slot == "_was_set" else "") +
+                     ": a mark left by an earlier load / edit makes the replacing load skip `unset_value()` and the old pick survives", f.loc()))
+        construct = f"Kconfig._load_config/whatever a replacing load did not set is unset ({coll.split('.')[-1]})"
+        (ctx.ok(construct, f.loc()) if coll in unsets else ctx.bad(construct, f"no `unset_value()` under `not _was_set` over {coll}", f.loc()))
+    fc = repo.func(f"{CORE}:_finalize_choice")
+    ctx.analysed(fc.qual)
+    construct = "_finalize_choice/the choice type is settled before members inherit it"
+    inherit = [lp for lp in ast.walk(fc.node) if isinstance(lp, (ast.For, ast.While)) and any(
+        isinstance(n, ast.Assign) and ast.unparse(n.targets[0]).endswith(".orig_type") and ast.unparse(n.value) == "choice.orig_type" for n in ast.walk(lp))]
+    if not inherit:
+        ctx.bad(construct, "members no longer inherit the type of the choice", fc.loc())
+    else:
+        mixed = [lp for lp in inherit if any(isinstance(n, ast.Assign) and ast.unparse(n.targets[0]) == "choice.orig_type" for n in ast.walk(lp))]
+        (ctx.bad(construct, "the loop that hands the choice's type to untyped members also *determines* that type: members before the first typed "
+                 "one are visited while the type is still unknown and stay untyped", fc.loc(mixed[0])) if mixed else ctx.ok(construct, fc.loc(inherit[0])))
+    rp = repo.func(f"{CORE}:_recursively_perform_action.<locals>.rec")
+    ctx.analysed(rp.qual)
+    fl2 = Flow(rp.node, resolver=Resolver(rp.node)).run()
+    for fld, allowed in (("list", {"node.list"}), ("next", {"node.next", "node != start_node", "node == start_node"})):
+        calls = [n for n in ast.walk(rp.node) if isinstance(n, ast.Call) and ast.unparse(n.func) == "rec" and n.args and ast.unparse(n.args[0]) == f"node.{fld}"]
+        construct = f"_recursively_perform_action/descends into node.{fld} whatever the node is"
+        if not calls:
+            ctx.bad(construct, f"no recursion into node.{fld}", rp.loc())
+            continue
+        extra = sorted(k for k, p in (fl2.guards_at(calls[0]) or set()) if k not in allowed)
+        (ctx.bad(construct, f"the recursion is additionally guarded by {extra}: nodes below such a node (e.g. a choice nested in a choice) are never reset",
+                 rp.loc(calls[0])) if extra else ctx.ok(construct, rp.loc(calls[0])))
+
+
 def rules():
-    return [("R05.1", r05_1, 2), ("R05.2", r05_2, 4), ("R05.3", r05_3, 3), ("R05.4", r05_4, 3), ("R05.5", r05_5, 6), ("R05.6", r05_6, 9)]
+    return [("R05.7", r05_7, 9), ("R05.1", r05_1, 2), ("R05.2", r05_2, 4), ("R05.3", r05_3, 3), ("R05.4", r05_4, 3), ("R05.5", r05_5, 6), ("R05.6", r05_6, 9)]
